@@ -199,13 +199,18 @@ func cmdDump(args []string) {
 	timeout := fs.Int("timeout", 20, "")
 	keep := fs.String("scratch", "", "")
 	fs.StringVar(&oblFilter, "obl", "", "solve only obligations whose name contains this")
+	nocgo := fs.Bool("nocgo", false, "load the pure-Go build configuration (CGO_ENABLED=0)")
 	fs.Parse(args)
 	scratch := *keep
 	if scratch == "" {
 		scratch, _ = os.MkdirTemp("", "gpv")
 		defer os.RemoveAll(scratch)
 	}
-	out, err := runProperty(*repo, *prop, defaultConfig(), *timeout, scratch, *only, true)
+	cfg := defaultConfig()
+	if *nocgo {
+		cfg = BuildConfig{Name: "native", Cgo: false}
+	}
+	out, err := runProperty(*repo, *prop, cfg, *timeout, scratch, *only, true)
 	if err != nil {
 		fmt.Println("ERROR:", err)
 		if out == nil {
